@@ -356,6 +356,15 @@ def coalesce_default_comes_last_and_container_subclass_constants_pass_through(co
         ('winner-then-Spec-default', lambda: Coalesce('a', default=Spec(T['ctr'].bump())), lambda t: 1, []),
         ('nested-in-dict-winner', lambda: {'k': Coalesce('a', default=T['ctr'].bump()), 'n': T['ctr'].bump('after')},
          lambda t: {'k': 1, 'n': ('bumped', 'after', 1)}, ['after']),
+        # a default that is itself a specifier object of another kind is a part as well: its value is the result, not the object
+        ('all-skipped-Val-default', lambda: Coalesce('zz', T['yy'], default=Val(7)), lambda t: 7, []),
+        ('all-skipped-nested-Coalesce-default', lambda: Coalesce('zz', default=Coalesce('yy', 'a')), lambda t: 1, []),
+        ('all-skipped-nested-Coalesce-default-counting', lambda: Coalesce('zz', default=Coalesce('yy', T['ctr'].bump('inner'))), lambda t: ('bumped', 'inner', 1), ['inner']),
+        ('all-skipped-Call-default', lambda: Coalesce('zz', default=Call(int, args=('41',))), lambda t: 41, []),
+        ('all-skipped-Invoke-default', lambda: Coalesce('zz', default=Invoke(dict).constants(k=1).specs(a='a')), lambda t: {'k': 1, 'a': 1}, []),
+        ('all-skipped-Pipe-default', lambda: Coalesce('zz', default=Pipe('a', lambda v: v + 1)), lambda t: 2, []),
+        ('winner-then-Val-default', lambda: Coalesce('a', default=Val(7)), lambda t: 1, []),
+        ('skipped-value-then-Invoke-default', lambda: Coalesce('none', default=Invoke(T['ctr'].bump).constants('inv'), skip=None), lambda t: ('bumped', 'inv', 1), ['inv']),
     ]
     for desc, mk_spec, want, want_log in cases:
         spec = mk_spec()
